@@ -17,12 +17,13 @@ answers of `intersects`, `containsObject`, `minimumDistanceTo` agree with exact 
 the numerical tolerance of touching, and every shortcut agrees with the exhaustive computation.
 
 What is proved here is the decision logic under contracts about FCL/trimesh/shapely (assumptions,
-validated by the correspondence run).  One contract is **false of the unchanged tree**: the fall-back
-branch of `MeshVolumeRegion._circumradius` measures the vertices about the origin, not about the
-region's `position` (`Gen.fallbackCenter = .origin`), so `IntersectContract.circA` fails for regions
-built with `centerMesh=False` around a non-zero position (e.g. `ViewRegion`): see
-`intersects_fallback_origin_witness` (negation witness) and `Solid.fallback_position_bound` (what the
-repaired expression satisfies).
+validated by the correspondence run), plus — without any contract — that the precomputed per-shape
+geometry survives the rigid placement of a shape and that `_circumradius` bounds the region about its
+`position` through each of its three branches (`circumradius_bounds`), which is the content of the contract
+`IntersectContract.circA`.  (Before `fix: measure the fallback circumradius of a MeshVolumeRegion about its
+position` the fall-back branch measured about the origin and `circA` was false of `/repo`; the side
+condition `gen_fallback_center` now pins the extracted centre to `.position`, and
+`Solid.fallback_origin_not_bound` records why nothing weaker would do.)
 -/
 -- the side-condition scripts are deliberately redundant (robust against equivalent rewrites of /repo)
 set_option linter.unusedTactic false
@@ -84,9 +85,25 @@ theorem gen_obj_sound : objCfg.Sound where
 theorem gen_dist_sound : distCfg.Sound where
   z := by intro a b h; simp [distCfg, Cmp.eval] at h; linarith
 
-/-- the fall-back circumradius is measured about one of the two points the model knows -/
-theorem gen_fallback_center_cases : fallbackCenter = .origin ∨ fallbackCenter = .position := by
-  cases h : fallbackCenter <;> simp
+theorem gen_voldist_sound : volDistCfg.Sound where
+  pos := by
+    intro x
+    simp only [volDistCfg, Cmp.eval, decide_eq_true_eq]
+    try (constructor <;> intro h <;> linarith)
+  conn := by intro a b; cases a <;> cases b <;> simp [volDistCfg, Conn.eval]
+  nestedRet := by simp [volDistCfg]
+  bvhOnly := by simp [volDistCfg]
+
+theorem gen_convex_sound : convexCfg.Sound where
+  overrideFirst := by simp [convexCfg]
+  needsTrimesh := by simp [convexCfg]
+  vol := by
+    intro o h hnn
+    simp only [convexCfg, Cmp.eval, decide_eq_true_eq] at h
+    linarith
+
+/-- the fall-back branch of `_circumradius` measures the vertices about the region's `position` -/
+theorem gen_fallback_center : fallbackCenter = .position := by decide
 
 /-! ## the property theorems for the procedures as written in `/repo` -/
 
@@ -135,10 +152,37 @@ theorem objectIntersects_correct {α : Type*} {SA SB : Set (α × ℝ)} {P1 P2 :
 
 /-- `Object.minimumDistanceTo`: never positive on overlap, the true gap otherwise -/
 theorem min_dist_sign {α : Type*} [MetricSpace α] {SA SB : Set (α × ℝ)} {P1 P2 : Set α} {hS hO : ℝ}
-    {o : DistObs} (h : DistContract SA SB P1 P2 hS hO o) :
-    (((minimumDistance distCfg o).1 : ℝ) ≤ 0 ↔ (SA ∩ SB).Nonempty) ∧
-    (0 < ((minimumDistance distCfg o).1 : ℝ) → IsGap dist3 SA SB ((minimumDistance distCfg o).1 : ℝ)) :=
-  Solid.min_dist_sign _ gen_dist_sound h
+    {o : DistObs} (h : DistContract SA SB P1 P2 hS hO volDistCfg o) :
+    (((minimumDistance distCfg volDistCfg o).1 : ℝ) ≤ 0 ↔ (SA ∩ SB).Nonempty) ∧
+    (0 < ((minimumDistance distCfg volDistCfg o).1 : ℝ) →
+      IsGap dist3 SA SB ((minimumDistance distCfg volDistCfg o).1 : ℝ)) :=
+  Solid.min_dist_sign _ gen_dist_sound _ gen_voldist_sound h
+
+/-- `MeshVolumeRegion.minimumDistanceTo`: never positive on overlap — nested volumes included, although
+FCL's BVH models are surfaces —, the true gap otherwise -/
+theorem volumeMinimumDistance_correct {β : Type*} {δ : β → β → ℝ} {SA SB : Set β} {o : VolDistObs}
+    (h : VolDistContract δ SA SB volDistCfg o) :
+    (((volumeMinimumDistance volDistCfg o).1 : ℝ) ≤ 0 ↔ (SA ∩ SB).Nonempty) ∧
+    (0 < ((volumeMinimumDistance volDistCfg o).1 : ℝ) →
+      IsGap δ SA SB ((volumeMinimumDistance volDistCfg o).1 : ℝ)) :=
+  Solid.volumeMinimumDistance_correct _ gen_voldist_sound h
+
+/-- `MeshVolumeRegion.isConvex`: a constructor override is returned as is; otherwise `true` only for meshes
+that pass trimesh's edge test and fill their convex hull up to 1/1000 -/
+theorem isConvexFlag_sound (o : ConvexObs) :
+    (∀ b, o.override = some b → isConvexFlag convexCfg o = b) ∧
+    (o.override = none → isConvexFlag convexCfg o = true → 0 ≤ o.hullVol →
+      o.trimeshConvex = true ∧ o.hullVol - o.vol ≤ o.hullVol / 1000) :=
+  Solid.isConvexFlag_sound _ gen_convex_sound o
+
+/-- `MeshVolumeRegion._circumradius` **as written in `/repo`** bounds every vertex of the region about the
+region's `position`, whichever of its three branches is taken, for every rotation / position / dimensions /
+vertex list -/
+theorem circumradius_bounds (R : Mat3) (hR : R.isOrtho = true) (pos : V3) (verts : List V3)
+    (src : CircSource) (hg : CircGeom R pos verts src) (v : V3) (hv : v ∈ verts) :
+    V3.distSq v pos ≤ circumradiusSq fallbackCenter src pos verts := by
+  rw [gen_fallback_center]
+  exact Solid.circumradius_bounds R hR pos verts src hg v hv
 
 /-! ## the hypotheses are satisfiable (concrete, non-trivial instances) -/
 
@@ -229,26 +273,49 @@ example : sepCheck (cubeAt 0) (cubeAt 3) (1, 0, 0) (1, 0, 0) (1, 0, 0) = true :=
 example : witnessCheck (cubeAt 0) (cubeAt 1) (1 / 2, 0, 0) = true := by
   simp [witnessCheck, Box.has, slabHas, cubeAt, V3.sub, V3.dot] <;> norm_num
 
-/-! ## the contract that is false of the unchanged tree: the fall-back circumradius -/
+/-! ## minimum distance, convexity flag, circumradius: concrete non-trivial instances -/
 
-/-- **Negation witness.**  Two regions whose world-space solid is the *same* cube `[-1,1]³`, built with
-`centerMesh=False` around the positions `(5,0,0)` and `(-5,0,0)`.  `/repo` computes their circumradius
-about the origin (`fallbackCircSq .origin … = 3 ≤ (7/4)²`) but the centre distance between the
-positions (`10`); PASS 1 of the procedure as written in `/repo` answers "disjoint" although the solids
-share the point `(0,0,0)`.  (Replayed on the real code on every run; key `fallback-circumradius-origin`.) -/
-theorem intersects_fallback_origin_witness :
-    ∃ (A B : Box) (pA pB : V3) (o : IntersectObs),
-      fallbackCircSq .origin pA A.corners ≤ o.circS * o.circS ∧
-      fallbackCircSq .origin pB B.corners ≤ o.circO * o.circO ∧
-      o.centerDist * o.centerDist = V3.distSq pA pB ∧
-      (intersects intersectCfg o).1 = false ∧
-      witnessCheck A B (0, 0, 0) = true := by
-  refine ⟨cubeAt 0, cubeAt 0, (5, 0, 0), (-5, 0, 0),
-    { obsApart with centerDist := 10, circS := 7 / 4, circO := 7 / 4 }, ?_, ?_, ?_, ?_, ?_⟩
-  · simp [fallbackCircSq, maxQ, cubeAt, Box.corners, Box.lin, V3.add, V3.smul, V3.normSq, V3.dot] <;> norm_num
-  · simp [fallbackCircSq, maxQ, cubeAt, Box.corners, Box.lin, V3.add, V3.smul, V3.normSq, V3.dot] <;> norm_num
-  · simp [V3.distSq, V3.normSq, V3.dot, V3.sub] <;> norm_num
-  · simp [intersects, intersectCfg, obsApart, Cmp.eval] <;> norm_num
-  · simp [witnessCheck, Box.has, slabHas, cubeAt, V3.sub, V3.dot]
+/-- a small cube nested in a non-convex solid: FCL's surface distance is 9/10, the answer is 0 -/
+example : volumeMinimumDistance volDistCfg { fclDist := 9 / 10, volIntersects := true } = (0, true) := by
+  simp [volumeMinimumDistance, volDistCfg, Cmp.eval, Conn.eval] <;> norm_num
+
+/-- two unit balls of the real line 3 apart: the contract is satisfiable and the gap 1 is returned -/
+example : VolDistContract (fun a b : ℝ => dist a b) (closedBall (0 : ℝ) 1) (closedBall (3 : ℝ) 1) volDistCfg
+    { fclDist := 1, volIntersects := false } where
+  fclGap := fun _ _ => by
+    refine ⟨by norm_num, ?_, ⟨1, by simp, 2, by simp [Real.dist_eq]; norm_num [abs_le], by norm_num [Real.dist_eq]⟩⟩
+    intro a ha b hb
+    rw [mem_closedBall, Real.dist_eq, abs_le] at ha hb
+    show ((1 : Rat) : ℝ) ≤ dist a b
+    rw [Real.dist_eq]
+    have : a - b ≤ -1 := by linarith [ha.2, hb.1]
+    rw [abs_of_nonpos (by linarith)]
+    push_cast
+    linarith
+  intersectsTruth := by
+    simp only [Bool.false_eq_true, false_iff]
+    exact apart_empty
+
+/-- the union of two touching boxes (an L): passes trimesh's edge test, volume 81/8, hull volume 189/16 -/
+example : isConvexFlag convexCfg { override := none, trimeshConvex := true, vol := 81 / 8, hullVol := 189 / 16 } = false := by
+  simp [isConvexFlag, convexCfg, Cmp.eval] <;> norm_num
+
+example : isConvexFlag convexCfg { override := none, trimeshConvex := true, vol := 8, hullVol := 8 } = true := by
+  simp [isConvexFlag, convexCfg, Cmp.eval] <;> norm_num
+
+/-- rotation by 90° about z -/
+def rotZ : Mat3 := ((0, -1, 0), (1, 0, 0), (0, 0, 1))
+
+example : rotZ.isOrtho = true := by
+  simp [Mat3.isOrtho, rotZ]
+
+/-- the cube `[-1,1]³` written around the position `(5,0,0)` (the old negation witness): the fall-back
+    branch as written in `/repo` now returns radius² 3 about the position, which bounds the corner -/
+example : circumradiusSq fallbackCenter .fallback (5, 0, 0) [(6, 1, 1), (4, -1, -1)] = 3 := by
+  rw [gen_fallback_center]
+  simp [circumradiusSq, fallbackCircSq, maxQ, V3.distSq, V3.normSq, V3.dot, V3.sub] <;> norm_num
+
+example : CircGeom rotZ (5, 0, 0) [(4, 1, 1)] (.scaled [(1, 1, 1)]) :=
+  .scaled _ (by simp [rigid, rotZ, Mat3.mulVec, V3.dot, V3.add]; norm_num)
 
 end Scenic.C04
